@@ -126,7 +126,7 @@ func c09Numeric(r *rand.Rand, s *specs.Spec) string {
 }
 
 func checkC09(c *Ctx) {
-	c.Rule = "valid Specs in which one free-text field at a time (16 fields: env values, node path/hostPath, hook path/arg/env, mount host/container path/option/type, spec and device annotation values, RDT strings) takes a G-STR string (catalogue of YAML-sensitive spellings, blanks, line breaks in every position, quotes, indicators, C0/C1 controls, DEL, NEL, LS/PS, BOM, non-characters, non-BMP, long strings; plus seeded compositions of fragments), and numeric extremes of every integer field; written with Cache.WriteSpec as x.json, x.yaml and x, read back with ReadSpec and through Cache.Refresh+GetDevice; distinct_nontrivial = distinct (field, string class or composed string, encoding) combinations"
+	c.Rule = "valid Specs in which one free-text field at a time (16 fields: env values, node path/hostPath, hook path/arg/env, mount host/container path/option/type, spec and device annotation values, RDT strings) takes a G-STR string (catalogue of YAML-sensitive spellings, blanks, line breaks in every position, quotes, indicators, C0/C1 controls, DEL, NEL, LS/PS, BOM, non-characters, non-BMP, long strings; plus seeded compositions of fragments), numeric extremes of every integer field, and in-memory shapes with allocated-but-empty lists and maps (judged only if the writer accepts them); written with Cache.WriteSpec as x.json, x.yaml and x, read back with ReadSpec and through Cache.Refresh+GetDevice; distinct_nontrivial = distinct (field, string class or composed string, encoding) combinations"
 	c.Assume("equality identifies nil and empty containers (normalised JSON comparison)", "only valid UTF-8 strings are generated (the property quantifies over valid UTF-8)")
 	dir := filepath.Join(c.Scratch, "c09")
 	must(os.MkdirAll(dir, 0o755))
@@ -134,7 +134,42 @@ func checkC09(c *Ctx) {
 		r := cs.R
 		s := c09Base(r)
 		var field, class, val string
-		if chance(r, 8) {
+		mayRefuse := false
+		if chance(r, 6) {
+			// in-memory shapes a parsed document never has: allocated but empty lists and
+			// maps. Whether such a Spec is accepted for writing is the library's call
+			// (a device whose edits are all empty has no edits); IF it is accepted the
+			// file must read back like any other
+			field, class = "shape", "shape"
+			e := &s.Devices[len(s.Devices)-1].ContainerEdits
+			switch k := r.Intn(7); k {
+			case 0:
+				*e = specs.ContainerEdits{Env: []string{}}
+				val, mayRefuse = "device edits = {env: []} only", true
+			case 1:
+				*e = specs.ContainerEdits{Env: []string{}, DeviceNodes: []*specs.DeviceNode{}, Hooks: []*specs.Hook{}, Mounts: []*specs.Mount{}, AdditionalGIDs: []uint32{}}
+				val, mayRefuse = "device edits = every list allocated and empty", true
+			case 2:
+				*e = specs.ContainerEdits{Mounts: []*specs.Mount{}}
+				val, mayRefuse = "device edits = {mounts: []} only", true
+			case 3:
+				e.DeviceNodes, e.Hooks, e.AdditionalGIDs = []*specs.DeviceNode{}, []*specs.Hook{}, []uint32{}
+				val = "real edits next to allocated empty lists"
+			case 4:
+				s.ContainerEdits = specs.ContainerEdits{Env: []string{}, Mounts: []*specs.Mount{}}
+				s.Annotations = map[string]string{}
+				s.Devices[0].Annotations = map[string]string{}
+				val = "spec-level edits and annotations allocated and empty"
+			case 5:
+				e.Hooks = []*specs.Hook{{HookName: "prestart", Path: "/h", Args: []string{}, Env: []string{}}}
+				e.Mounts = []*specs.Mount{{HostPath: "/h", ContainerPath: "/c", Options: []string{}}}
+				val = "hook args/env and mount options allocated and empty"
+			default:
+				*e = specs.ContainerEdits{IntelRdt: &specs.IntelRdt{}}
+				val, mayRefuse = "device edits = empty intelRdt object only", true
+			}
+			c.Count("in_memory_shapes", 1)
+		} else if chance(r, 8) {
 			field, class = "numeric", "numeric"
 			val = c09Numeric(r, s)
 		} else {
@@ -150,7 +185,7 @@ func checkC09(c *Ctx) {
 		must(os.MkdirAll(sub, 0o755))
 		defer os.RemoveAll(sub)
 		cache, _ := cdi.NewCache(cdi.WithSpecDirs(sub), cdi.WithAutoRefresh(false))
-		want := normJSON(s)
+		want := exactJSON(s)
 		loaded := map[string]string{}
 		leftovers := chance(r, 20)
 		if leftovers {
@@ -185,7 +220,11 @@ func checkC09(c *Ctx) {
 				return m
 			}
 			var werr error
-			if pv, st := guard(func() { werr = cache.WriteSpec(cloneSpec(s), name) }); pv != nil {
+			arg := cloneSpec(s)
+			if class == "shape" {
+				arg = s // a JSON clone would turn the allocated empty lists into nil ones
+			}
+			if pv, st := guard(func() { werr = cache.WriteSpec(arg, name) }); pv != nil {
 				cs.Violation("panic", tags, fmt.Sprintf("WriteSpec panics: %v", pv), wit(map[string]any{"stack": st}))
 				return
 			}
@@ -196,6 +235,10 @@ func checkC09(c *Ctx) {
 				}
 				return ""
 			}())
+			if werr != nil && mayRefuse {
+				c.Count("in_memory_shapes_refused_by_the_writer", 1)
+				continue
+			}
 			if werr != nil {
 				cs.Violation("write-rejected", tags, fmt.Sprintf("WriteSpec(%s) rejects a valid Spec (%s = %q): %v", name, field, val, werr), wit(nil))
 				continue
@@ -210,7 +253,7 @@ func checkC09(c *Ctx) {
 				cs.Violation("unreadable", tags, fmt.Sprintf("%s written by WriteSpec cannot be read back (%s = %q): %v", name, field, val, rerr), wit(nil))
 				continue
 			}
-			got := normJSON(rs.Spec)
+			got := exactJSON(rs.Spec)
 			loaded[name] = got
 			if got != want {
 				cs.Violation("altered", tags, fmt.Sprintf("%s reads back different from what was written (%s = %q)\n written %s\n read    %s", name, field, val, want, got), wit(nil))
@@ -219,7 +262,7 @@ func checkC09(c *Ctx) {
 			// through the cache
 			cache.Refresh()
 			d := cache.GetDevice("vendor.com/gpu=dev0")
-			if d == nil || normJSON(d.Device) != normJSON(s.Devices[0]) {
+			if d == nil || exactJSON(d.Device) != exactJSON(s.Devices[0]) {
 				cs.Violation("cache-differs", tags, fmt.Sprintf("%s loaded through the cache yields a different device (%s = %q): errors %v", name, field, val, cache.GetErrors()), wit(nil))
 				continue
 			}
